@@ -1,6 +1,6 @@
 reg("C15", "SPDE operators, projections and solvers are mutually consistent",
     parts=[dict(harness="c15_spde", cases=dict(quick=640, thorough=4000), timeout_case=120)],
-    rule="96 % of the cases = one (mesh, model) pair drawn from the case PRNG: mesh kind in {MeshETurbo from nx/dx/x0/angles (optionally "
+    rule="93 % of the cases = one (mesh, model) pair drawn from the case PRNG: mesh kind in {MeshETurbo from nx/dx/x0/angles (optionally "
          "polarized), MeshETurbo from a DbGrid with a selection (masked meshes), MeshETurbo::createFromCova (grid rotated like the "
          "model, extension cells), MeshEStandard::createFromExternal on a jittered simplicial lattice (every element keeps |det| >= 0.1 "
          "lattice units) under a random affine map with relabelled vertices and randomly oriented elements, MeshEStandard copy of a "
@@ -15,7 +15,7 @@ reg("C15", "SPDE operators, projections and solvers are mutually consistent",
          "1 or 2 structures -> PrecisionOpMultiConditional(Cs) rhs / product / solves / quadratic form / log det, SPDEOp(Matrix) "
          "product, krigingSPDE, krigingSPDENew, logLikelihoodSPDE with useCholesky = 1 and 0 vs an own dense long-double solution of "
          "(Q + A'A/s2) x = A'z/s2 when the system has <= 130 unknowns (quick). 4 % of the cases = krigingSPDENew on a target Db "
-         "without Z variable. distinct = distinct (mesh kind, ndim, covariance type, polynomial degree, integer-alpha flag, range "
+         "without Z variable; 3 % = log-likelihood (both modes) of data none of which falls in the mesh, vs its closed form. distinct = distinct (mesh kind, ndim, covariance type, polynomial degree, integer-alpha flag, range "
          "class, polarization) signatures with at least one non-skipped oracle evaluation",
     level="exploration",
     require=dict(distinct=60,
